@@ -239,6 +239,100 @@ def _t_np_functions(srcs):
             R().visit(tree)
 
 
+def _t_np_operators(srcs):
+    """operators spelled as numpy functions where that is the same for every operand the code can see: a @ b -> np.matmul(a, b), np.eye(n) -> np.identity(n)"""
+    import ast
+
+    class R(ast.NodeTransformer):
+        def visit_BinOp(self, node):
+            self.generic_visit(node)
+            if isinstance(node.op, ast.MatMult):
+                return ast.copy_location(ast.Call(func=ast.Attribute(value=ast.Name("np", ast.Load()), attr="matmul", ctx=ast.Load()), args=[node.left, node.right], keywords=[]), node)
+            return node
+
+        def visit_Call(self, node):
+            self.generic_visit(node)
+            if isinstance(node.func, ast.Attribute) and node.func.attr == "eye" and isinstance(node.func.value, ast.Name) and node.func.value.id == "np" and len(node.args) == 1 and not node.keywords:
+                node.func.attr = "identity"
+            return node
+    for pth, tree in srcs.items():
+        if "import numpy as np" in ast.unparse(tree)[:6000]:
+            R().visit(tree)
+
+
+def _t_swap_branches(srcs):
+    """every `if c: A else: B` becomes `if not c: B else: A`"""
+    import ast
+
+    class R(ast.NodeTransformer):
+        def visit_If(self, node):
+            self.generic_visit(node)
+            if node.orelse:
+                t = node.test
+                nt = t.operand if isinstance(t, ast.UnaryOp) and isinstance(t.op, ast.Not) else ast.UnaryOp(ast.Not(), t)
+                return ast.copy_location(ast.If(ast.copy_location(nt, t), node.orelse, node.body), node)
+            return node
+    for tree in srcs.values():
+        R().visit(tree)
+        ast.fix_missing_locations(tree)
+
+
+def _t_name_conditions(srcs):
+    """the test of every `if` statement (not elif) is first assigned to a local: `_cond7 = <test>; if _cond7:`; `return <expr>` becomes `_result = <expr>; return _result`"""
+    import ast
+
+    class R(ast.NodeTransformer):
+        def __init__(self):
+            self.k = 0
+
+        def block(self, stmts):
+            out = []
+            for st in stmts:
+                st = self.visit(st)
+                if isinstance(st, ast.If) and not isinstance(st.test, (ast.Name, ast.Constant)):
+                    self.k += 1
+                    nm = "_cond%d" % self.k
+                    out.append(ast.copy_location(ast.Assign([ast.Name(nm, ast.Store())], st.test), st))
+                    st.test = ast.copy_location(ast.Name(nm, ast.Load()), st.test)
+                elif isinstance(st, ast.Return) and st.value is not None and not isinstance(st.value, (ast.Name, ast.Constant)):
+                    out.append(ast.copy_location(ast.Assign([ast.Name("_result", ast.Store())], st.value), st))
+                    st.value = ast.copy_location(ast.Name("_result", ast.Load()), st)
+                out.append(st)
+            return out
+
+        def generic_visit(self, node):
+            for fld in ("body", "orelse", "finalbody"):
+                v = getattr(node, fld, None)
+                if isinstance(v, list) and v and isinstance(v[0], ast.stmt):
+                    # the else suite of an if that holds a single if is an `elif`: its test must stay where it is evaluated
+                    if fld == "orelse" and isinstance(node, ast.If) and len(v) == 1 and isinstance(v[0], ast.If):
+                        self.generic_visit(v[0])
+                        continue
+                    setattr(node, fld, self.block(v))
+            for h in getattr(node, "handlers", []) or []:
+                h.body = self.block(h.body)
+            return node
+    for tree in srcs.values():
+        R().generic_visit(tree)
+        ast.fix_missing_locations(tree)
+
+
+def _t_ternary_to_if(srcs):
+    """`x = a if c else b` (one plain name on the left) becomes an if / else statement with two assignments"""
+    import ast
+
+    class R(ast.NodeTransformer):
+        def visit_Assign(self, node):
+            if len(node.targets) == 1 and isinstance(node.targets[0], ast.Name) and isinstance(node.value, ast.IfExp):
+                v = node.value
+                mk = lambda e: ast.copy_location(ast.Assign([ast.Name(node.targets[0].id, ast.Store())], e), node)
+                return ast.copy_location(ast.If(v.test, [mk(v.body)], [mk(v.orelse)]), node)
+            return node
+    for tree in srcs.values():
+        R().visit(tree)
+        ast.fix_missing_locations(tree)
+
+
 def _t_strip_docs_annotate(srcs):
     """docstrings removed, every parameter annotated with `object`, every function given a return annotation"""
     import ast
@@ -398,7 +492,7 @@ def _t_accept_lists(srcs):
                         n.body[k:k] = ast.parse("if not isinstance(%s, np.ndarray):\n    %s = np.array(%s)\n" % (a.arg, a.arg, a.arg)).body
 
 
-TREE_TRANSFORMS = {"@coerce_params": _t_coerce_params, "@accept_lists": _t_accept_lists, "@early_exit": _t_early_exit, "@numpy_alias": _t_numpy_alias, "@kwargs_calls": _t_kwargs_calls, "@strip_docs_annotate": _t_strip_docs_annotate, "@logging": _t_logging, "@traced": _t_traced, "@kwonly": _t_kwonly, "@extra_param": _t_extra_param, "@try_reraise": _t_try_reraise, "@np_functions": _t_np_functions,
+TREE_TRANSFORMS = {"@coerce_params": _t_coerce_params, "@accept_lists": _t_accept_lists, "@early_exit": _t_early_exit, "@numpy_alias": _t_numpy_alias, "@kwargs_calls": _t_kwargs_calls, "@strip_docs_annotate": _t_strip_docs_annotate, "@logging": _t_logging, "@traced": _t_traced, "@kwonly": _t_kwonly, "@extra_param": _t_extra_param, "@try_reraise": _t_try_reraise, "@np_functions": _t_np_functions, "@np_operators": _t_np_operators, "@swap_branches": _t_swap_branches, "@name_conditions": _t_name_conditions, "@ternary_to_if": _t_ternary_to_if,
                    "@shim": _t_shim}
 
 
